@@ -1,8 +1,8 @@
 (* C12 model runner (paths, include resolution, require candidates).
    norm <p> | dirname <p> | join <a> <b> | abspath <cwd> <p> | expanduser <home> <p>   -> hex
    root <cwd> <home> <cart>                                  -> hex
-   inc|incfix <cwd> <home> <cart> <inc> <file,file,...>      -> OK <hex> | ERR <name>
-   filter <req>                                              -> true|false
+   inc|incpre <cwd> <home> <cart> <inc> <file,file,...>      -> OK <hex> | ERR <name>   (incpre: string-prefix variant)
+   filter|filterold <req>                                    -> true|false
    cands <file_path> <lua_path> <req>                        -> hex,hex,...
    eff <arg|~> <env|~>                                       -> hex          (~ = None) *)
 let hexlist s = if s = "~" then [] else List.map bytes_of_hex (String.split_on_char ',' s)
@@ -19,10 +19,11 @@ let handle fields =
   | ["inc"; c; h; f; i; files] ->
     let fl = hexlist files in
     res (resolve_include_now (bytes_of_hex c) (bytes_of_hex h) (fun p -> List.mem p fl) (bytes_of_hex f) (bytes_of_hex i))
-  | ["incfix"; c; h; f; i; files] ->
+  | ["incpre"; c; h; f; i; files] ->
     let fl = hexlist files in
-    res (resolve_include_fixed_now (bytes_of_hex c) (bytes_of_hex h) (fun p -> List.mem p fl) (bytes_of_hex f) (bytes_of_hex i))
+    res (resolve_include_prefix (bytes_of_hex c) (bytes_of_hex h) (fun p -> List.mem p fl) (bytes_of_hex f) (bytes_of_hex i))
   | ["filter"; r] -> string_of_bool (require_filter_now (bytes_of_hex r))
+  | ["filterold"; r] -> string_of_bool (require_filter_old (bytes_of_hex r))
   | ["cands"; f; l; r] ->
     String.concat "," (List.map hex_of_bytes (require_candidates_now (bytes_of_hex f) (bytes_of_hex l) (bytes_of_hex r)))
   | ["eff"; a; e] -> hex_of_bytes (effective_lua_path_now (opt a) (opt e))
